@@ -177,6 +177,19 @@ pub fn all() -> Vec<Scenario> {
     // F10: target count / entity bits from a remote client (default protocol-hash trigger channel).
     let mut p10 = prof();
     p10.app.auth = 0;
+    // A large but representable target count: no panic, but an allocation out of proportion.
+    v.push(Scenario {
+        id: "F10e",
+        props: vec!["C06"],
+        trace: Trace {
+            profile: p10.clone(),
+            steps: cat(vec![
+                start(),
+                vec![cf(0), up(0, Chan::ProtoHash), sf(true), Step::Inject { client: 0, channel: 1, bytes: vec![0xff, 0xff, 0xff, 0x7f, 0x00] }, sf(true), sf(true), Step::Heal],
+            ]),
+        },
+        symptom_oracles: vec![],
+    });
     for (i, bytes) in [
         vec![0xff, 0xff, 0xff, 0xff, 0xff, 0xff, 0xff, 0xff, 0xff, 0x01],
         vec![0x01, 0x03, 0xff, 0xff, 0xff, 0xff, 0x0f, 0x00],
